@@ -141,9 +141,9 @@ def run(ctx, chk):
             chk.ok("C06.R2", cn, f"= 1<<{FBIT[fl]}")
         else:
             chk.violation("C06.R2", cn, "wrong-bit", f"{cn} = {consts[cn]:#x}, architectural {fl} is bit {FBIT[fl]}", "src/lib/arch.rs")
-    fadt = P.adts.get("util::flag_util::Flags")
+    fadt = P.find_adt("util::flag_util::Flags")
     for fname, kind in (("get_flag_state", "get"), ("set_flag", "set"), ("unset_flag", "unset")):
-        fn = P.by_name.get(("lib", "util::flag_util::" + fname))
+        fn = P.find("lib", "util::flag_util::" + fname)
         if not fn or not fadt:
             chk.undecided_("C06.R2", fname, "function or enum not found")
             continue
@@ -274,7 +274,7 @@ def run(ctx, chk):
         detail = repr(v)
         if v is not None and v.kind == "enum":
             alts = {v.variant: v.fields} if v.variant is not None else (v.alts or {})
-            sadt = P.adts.get("util::interpreter_util::State")
+            sadt = P.find_adt("util::interpreter_util::State")
             jmp_i = [i for i, x in enumerate(sadt["variants"]) if x["name"] == "JMP"][0]
             if jmp_i in alts and alts[jmp_i]:
                 tgt = alts[jmp_i][0]
@@ -303,7 +303,7 @@ def run(ctx, chk):
         I, st, v, r = run_interp_production(ctx, "jumps_loops", k, chooser2)
         if v is not None and v.kind == "enum":
             alts = {v.variant: v.fields} if v.variant is not None else (v.alts or {})
-            sadt = P.adts.get("util::interpreter_util::State")
+            sadt = P.find_adt("util::interpreter_util::State")
             names_ = sorted(sadt["variants"][i]["name"] for i in alts)
             if names_ == ["JMP", "NEXT"]:
                 chk.ok("C06.R7", "jumps_loops[conditional]", "JMP or NEXT")
